@@ -48,6 +48,24 @@ def _not_first_guard(fn_hir, scope_body, sep, counter_ids=()):
                 continue
             if vals == [False, True, True, True]:
                 return True
+    # `match counter { 0 => .., _ => separator }`: the arm taken for the counters 0, 1, 2, 7
+    for m_ in walk_exprs(scope_body):
+        if m_["k"] == "Match" and m_.get("src") == "Normal" and peel(m_["scrut"]).get("res") in set(counter_ids) and any(y is sep for y in walk_exprs(m_)):
+            it_ = interp.Interp()
+            vals = []
+            for k in (0, 1, 2, 7):
+                taken = None
+                for arm in m_["arms"]:
+                    try:
+                        if arm.get("guard") is None and it_.match_pat(arm["pat"], k, {}):
+                            taken = arm
+                            break
+                    except interp.Undecided:
+                        taken = None
+                        break
+                vals.append(taken is not None and any(y is sep for y in walk_exprs(taken["body"])))
+            if vals == [False, True, True, True]:
+                return True
     return False
 
 def r1(ctx):
